@@ -1189,3 +1189,127 @@ pub fn release_on_a_full_arena_script(r: &mut Rng, _index: u64, _tier: Tier) -> 
     }
     (cfg, s)
 }
+
+/// Shared: what one CONNACK announced must not outlive its connection.  Two to five connections
+/// of one session, each CONNACK with its own random selection of Maximum QoS, Receive Maximum,
+/// Maximum Packet Size, Server Keep Alive, Topic Alias Maximum (present on some, absent on
+/// others, different values), resumed or on a fresh broker session; on every connection the same
+/// small battery of requests (QoS 0/1/2 publishes with properties, SUBSCRIBE, UNSUBSCRIBE), all
+/// acknowledged at once.  Judged by the ordinary monitors (C09: what goes out is what was asked,
+/// under the limits of *this* connection; C19: QoS cap; C06; C14; C05).
+pub fn limits_across_connections_script(r: &mut Rng, _index: u64, _tier: Tier) -> (CaseCfg, Vec<Step>) {
+    let cfg = CaseCfg {
+        rx: *r.pick(&[128usize, 256, 1024]),
+        tx: 2048,
+        keepalive: *r.pick(&[0u16, 0, 30, 600]),
+        downgrade: r.chance(2, 3),
+        client_id: if r.chance(1, 4) { String::new() } else { "limits".into() },
+        ..CaseCfg::default()
+    };
+    let mut s = Vec::new();
+    let conns = r.range(2, 5);
+    let mut tag = 1u32;
+    for k in 0..conns {
+        let mut props = Vec::new();
+        if r.chance(1, 2) {
+            props.push(Prop::MaximumQoS(r.below(2) as u8));
+        }
+        if r.chance(1, 2) {
+            props.push(Prop::ReceiveMaximum(*r.pick(&[1u16, 2, 3, 8, 20, 65535])));
+        }
+        if r.chance(1, 3) {
+            props.push(Prop::MaximumPacketSize(*r.pick(&[40u32, 64, 100, 300, 70_000])));
+        }
+        if r.chance(1, 3) {
+            props.push(Prop::ServerKeepAlive(*r.pick(&[0u16, 5, 60, 65535])));
+        }
+        if r.chance(1, 4) {
+            props.push(Prop::TopicAliasMaximum(*r.pick(&[0u16, 1, 10])));
+        }
+        if cfg.client_id.is_empty() && (k == 0 || r.chance(1, 3)) {
+            props.push(Prop::AssignedClientId(format!("assigned-{}", r.below(3))));
+        }
+        let sp = if k > 0 && r.chance(1, 3) { SpMode::Force(false) } else { SpMode::Honest };
+        s.push(connect_with(sp, AckMode::Immediate, props));
+        let n = r.range(2, 5);
+        for _ in 0..n {
+            tag += 1;
+            match r.below(6) {
+                0 | 1 | 2 | 3 => {
+                    let qos = r.below(3) as u8;
+                    let mut p = PubSpec { topic: format!("lim/{}", tag), payload: PayloadSpec::Fill { len: r.range(0, 12), tag, ascii: false }, qos, retain: r.chance(1, 4), props: vec![], correlate: None, cancel_at: None };
+                    if r.chance(1, 3) {
+                        p.props.push(Prop::UserProperty("k".into(), "v".into()));
+                    }
+                    if r.chance(1, 5) {
+                        p.correlate = Some(r.bytes(3));
+                    }
+                    s.push(Step::Publish(p));
+                }
+                4 => s.push(Step::Subscribe(SubSpec { filters: vec![FilterSpec { filter: format!("lim/f{}/#", tag), max_qos: r.below(3) as u8, no_local: r.chance(1, 2), rap: r.chance(1, 2), rh: r.below(3) as u8 }], props: vec![], cancel_at: None })),
+                _ => s.push(Step::Unsubscribe(UnsubSpec { filters: vec![format!("lim/f{}/#", tag)], props: vec![], cancel_at: None })),
+            }
+            s.push(poll0());
+            s.push(poll0());
+        }
+        s.push(poll0());
+        match r.below(3) {
+            0 => s.push(Step::Disconnect(DiscSpec { reason: None, props: None, cancel_at: None })),
+            _ => {}
+        }
+        s.push(Step::DropConn);
+    }
+    (cfg, s)
+}
+
+/// Shared (C01, C09): a `disconnect_with()` whose DISCONNECT carries properties (it is parked in
+/// the free part of the transmit arena, not in the inline control storage) is given up after
+/// some of its bytes went out; the application then asks again - with another reason and other
+/// properties, with none, or does something else first - once in three after the transport has
+/// answered one write with `Ok(0)`.  Whatever the calls return, the stream stays whole packets
+/// and ends with one DISCONNECT.
+pub fn disconnect_asked_again_script(r: &mut Rng, _index: u64, _tier: Tier) -> (CaseCfg, Vec<Step>) {
+    let cfg = CaseCfg { rx: 128, tx: *r.pick(&[128usize, 256, 1024]), keepalive: 0, ..CaseCfg::default() };
+    let policy = IoPolicy { write: *r.pick(&[Chunk::One, Chunk::Fixed(2), Chunk::Fixed(3), Chunk::Fixed(7)]), pend_write: Pend::Always, pend_flush: Pend::Always, ..IoPolicy::default() };
+    let mut s = vec![Step::Connect(ConnectSpec { policy, faults: vec![], connack: ConnackSpec::Normal { sp: SpMode::Force(false), reason: 0, props: vec![] }, broker: BrokerPolicy { acks: AckMode::Hold, ping: AckMode::Immediate, fail_pct: 0, longform_pct: 0 }, cancel_at: None })];
+    for k in 0..r.below(3) {
+        s.push(match r.below(3) {
+            0 => Step::Subscribe(SubSpec { filters: vec![FilterSpec { filter: "again/#".into(), max_qos: 1, no_local: false, rap: false, rh: 0 }], props: vec![], cancel_at: None }),
+            1 => pubq(2, "again", k as u32, 4),
+            _ => pubq(1, "again", k as u32, 4),
+        });
+    }
+    let mut props_of = |r: &mut Rng| -> Option<Vec<Prop>> {
+        match r.below(5) {
+            0 => None,
+            1 => Some(vec![]),
+            2 => Some(vec![Prop::ReasonString(str_of(r.range(1, 40), r))]),
+            3 => Some(vec![Prop::UserProperty(str_of(r.range(0, 6), r), str_of(r.range(0, 30), r))]),
+            _ => Some(vec![Prop::ReasonString(str_of(r.range(1, 12), r)), Prop::UserProperty("k".into(), str_of(r.range(0, 12), r)), Prop::SessionExpiry(*r.pick(&[0u32, 60]))]),
+        }
+    };
+    let first = props_of(r).or(Some(vec![Prop::ReasonString(str_of(r.range(4, 30), r))]));
+    // given up at its 2nd..14th await: a few bytes of the DISCONNECT are on the wire (or, with
+    // something still queued, the call is still finishing that)
+    s.push(Step::Disconnect(DiscSpec { reason: *r.pick(&[None, Some(0u8), Some(4), Some(0x98)]), props: first, cancel_at: Some(r.range(2, 14)) }));
+    if r.chance(1, 3) {
+        s.push(Step::Io { policy: None, faults: vec![FaultPlan { at: FaultAt::OutBytes(r.below(3)), kind: FaultKind::WriteZero }] });
+    }
+    for _ in 0..r.range(1, 3) {
+        s.push(match r.below(7) {
+            0 | 1 | 2 => Step::Disconnect(DiscSpec { reason: *r.pick(&[None, Some(0u8), Some(4), Some(0x98)]), props: props_of(r), cancel_at: if r.chance(1, 3) { Some(r.range(1, 9)) } else { None } }),
+            3 => poll0(),
+            4 => pubq(1, "again/late", 9, 3),
+            5 => pubq(0, "again/late0", 9, 3),
+            _ => Step::Drive { cancel_at: None },
+        });
+    }
+    s.push(Step::Disconnect(DiscSpec { reason: None, props: None, cancel_at: None }));
+    s.push(poll0());
+    s.push(Step::DropConn);
+    s.push(connect_with(SpMode::Force(true), AckMode::Immediate, vec![]));
+    for _ in 0..4 {
+        s.push(poll0());
+    }
+    (cfg, s)
+}
